@@ -497,3 +497,608 @@ def targets():
         Target('C15_lon_harmonics', ['lat', 'lon', 'h'], _t_lon, doc='degrees->radians .. the sin/cos(m*lon) recurrence, truncated at m = 3: sp[1..3], cp[1..3]'),
         Target('C15_scale', SC_IN, _t_scale, doc='denormalize_coefficients on a degree-2 object: the packed g/h entries after the in-place Schmidt scaling'),
     ]
+
+
+# =============================================================================================
+# 3. pregen: facts -> gen/C15facts.v; the proof stages depend on what the facts say
+# =============================================================================================
+T_NONE = 'magnetic_field/date-none-after-call'
+T_ZERO = 'constructor/skips-zero-place'
+T_DATE = 'constructor/float-date-off-grid'
+T_DEFAULT = 'magnetic_field/default-date-frozen-at-import'
+STAGES = [['C15_elements.v', 'C15_object.v'],
+          [('C15_refuted_none.v', {'finding': T_NONE}), ('C15_refuted_zero.v', {'finding': T_ZERO}),
+           ('C15_refuted_date.v', {'finding': T_DATE})],
+          ['C15.v']]
+FACTS = {}
+
+
+def pregen(ctx):
+    """regenerate the facts the object model rests on; choose, per defect, the `_refuted` witness file (the regenerated facts
+    exhibit the defect) or the unconditional `_fixed` theorem file (they do not)"""
+    global STAGES, FACTS
+    try:
+        f = extract_facts()
+    except Exception as e:          # fail closed: no facts file -> the object proofs cannot compile
+        ctx.broken.append({'kind': 'translation', 'target': 'C15facts', 'error': f'{type(e).__name__}: {e}'})
+        ctx.say(f'[gen] C15facts: extraction FAILED: {type(e).__name__}: {e}')
+        return
+    FACTS = f
+    path = os.path.join(ctx.build, 'gen', 'C15facts.v')
+    with open(path, 'w') as fh:
+        fh.write(facts_v(f))
+    r = ctx.coqc(path)
+    if r['rc'] != 0:
+        ctx.broken.append({'kind': 'translation', 'target': 'C15facts', 'error': 'generated facts file does not compile',
+                           'detail': (r['err'] or r['out'])[-1500:]})
+        ctx.say(f"[gen] C15facts.v does not compile:\n{(r['err'] or r['out'])[-800:]}")
+    ctx.targets_meta['C15_facts'] = {'tie': 'regenerated (ast walk)', 'sha': core.sha(facts_v(f))[:16],
+                                     **{k: v for k, v in f.items() if not k.endswith('_src')}}
+    second = [
+        ('C15_refuted_none.v', {'finding': T_NONE}) if not f['field_reloads_if_none'] else 'C15_fixed_none.v',
+        ('C15_refuted_zero.v', {'finding': T_ZERO}) if not all(f['ctor_guard']) else 'C15_fixed_zero.v',
+        ('C15_refuted_date.v', {'finding': T_DATE}) if f['ctor_date'] == 'calendar' else
+        ('C15_fixed_date.v' if f['ctor_date'] == 'given' else None),
+    ]
+    STAGES = [['C15_elements.v', 'C15_object.v'], [s for s in second if s], ['C15.v']]
+    ctx.say(f"[gen] C15facts.v: reload-before-scale with date={f['field_reloads_if_date']} date=None={f['field_reloads_if_none']} "
+            f"(events {f['events_date']!r}/{f['events_none']!r}); ctor guard {f['ctor_guard_src']!r} -> {f['ctor_guard']}; "
+            f"ctor passes {f.get('ctor_date_src')!r}; default date {f['field_default_date_src']!r}; zero branches {f['method_zero_branch_src']}")
+
+
+# =============================================================================================
+# 4. the real object
+# =============================================================================================
+def _WMM():
+    from ahrs.utils.wmm import WMM
+    return WMM
+
+
+def dval(spec):
+    """JSON date spec -> the Python value handed to the library"""
+    if spec is None:
+        return None
+    k, v = spec['kind'], spec['v']
+    if k == 'float':
+        return float(v)
+    if k == 'int':
+        return int(v)
+    if k == 'date':
+        return datetime.date(*v)
+    raise ValueError(k)
+
+
+def elements(w):
+    e = w.magnetic_elements
+    return None if e['X'] is None else [float(e[k]) for k in ELEMS]
+
+
+def fresh_answer(date, lat, lon, h, frame):
+    """the reference: a new object of that frame, asked once through the method with an explicit date"""
+    w = _WMM()(frame=frame)
+    w.magnetic_field(lat, lon, h, date=date if date is not None else datetime.date.today())
+    return elements(w)
+
+
+def _angdiff(a, b):
+    return abs((a - b + 180.0) % 360.0 - 180.0)
+
+
+def elem_diff(a, b):
+    """(max |difference| over X,Y,Z,H,F in nT, max angular difference over I,D,GV in degrees)"""
+    if a is None or b is None:
+        return (math.inf, math.inf)
+    if not all(math.isfinite(x) for x in list(a) + list(b)):
+        return (math.inf, math.inf)
+    return (max(abs(x - y) for x, y in zip(a[:5], b[:5])), max(_angdiff(x, y) for x, y in zip(a[5:], b[5:])))
+
+
+TOL_NT, TOL_DEG = 1e-6, 1e-9      # same code on the same inputs: equal to the bit; defects are 1..1e6 nT
+
+
+def same(a, b):
+    d = elem_diff(a, b)
+    return d[0] <= TOL_NT and d[1] <= TOL_DEG
+
+
+# =============================================================================================
+# 5. correspondence
+# =============================================================================================
+DATE_TABLE = [   # token (1-based index) -> date spec.  On and off the 0.1-year grid, file boundaries, every accepted type
+    {'kind': 'float', 'v': 2017.5}, {'kind': 'float', 'v': 2017.25}, {'kind': 'float', 'v': 2019.999}, {'kind': 'float', 'v': 2020.0},
+    {'kind': 'float', 'v': 2022.7}, {'kind': 'float', 'v': 2024.95}, {'kind': 'float', 'v': 2025.0}, {'kind': 'float', 'v': 2026.33},
+    {'kind': 'int', 'v': 2016}, {'kind': 'int', 'v': 2023}, {'kind': 'date', 'v': [2018, 7, 4]}, {'kind': 'date', 'v': [2021, 12, 31]},
+    {'kind': 'date', 'v': [2025, 1, 1]}, {'kind': 'float', 'v': 2015.0}, {'kind': 'float', 'v': 2028.15},
+]
+PLACE_TABLE = [  # (lat, lon, h)
+    (48.13723, 11.575508, 0.521), (0.0, 25.0, 0.0), (-33.9, 0.0, 1.2), (0.0, 0.0, 0.0), (90.0, 40.0, 0.0), (-90.0, -120.0, 3.0),
+    (12.5, 180.0, 0.3), (12.5, -180.0, 0.3), (80.0, -179.5, 10.0), (-60.0, 77.7, 100.0), (35.0, -100.0, 600.0), (-5.0, 5.0, -0.4),
+    (0, 15, 0), (20, 0, 1),
+]
+
+
+def _tok_value(tok, cache):
+    """interpretation of a date token of the executable model: t = literal of the table, t+1000 = the calendar date an object
+    reset to t holds in .date, t+2000 = its .date_dec, 999 = today (None).  Only public attributes are read."""
+    if tok in cache:
+        return cache[tok]
+    if tok == 999:
+        v = None
+    elif tok >= 1000:
+        base = _tok_value(tok % 1000, cache)
+        w = _WMM()()
+        w.reset_coefficients(base)
+        v = w.date if tok < 2000 else w.date_dec
+    else:
+        v = dval(DATE_TABLE[tok - 1])
+    cache[tok] = v
+    return v
+
+
+def _ref_state(tok, cache):
+    """(date_dec, file) of an object reset to the token's value"""
+    key = ('ref', tok)
+    if key not in cache:
+        w = _WMM()()
+        w.reset_coefficients(_tok_value(tok, cache))
+        cache[key] = (w.date_dec, w.wmm_filename)
+    return cache[key]
+
+
+def _raw_table(fn, cache):
+    key = ('raw', fn)
+    if key not in cache:
+        w = _WMM()()
+        w.load_coefficients(fn)
+        cache[key] = w.c.copy()
+    return cache[key]
+
+
+def _scale_count(w, cache):
+    """how many times the tables of the object have been scaled since they were loaded: g_2^0 grows by 3/2 per scaling"""
+    raw = _raw_table(w.wmm_filename, cache)
+    ratio = w.c[0, 2] / raw[0, 2]
+    k = round(math.log(ratio) / math.log(1.5))
+    return k if abs(ratio - 1.5 ** k) < 1e-9 * 1.5 ** k else -1
+
+
+def _gen_session(rng):
+    np_ = len(PLACE_TABLE)
+    od = None if rng.random() < 0.15 else int(rng.integers(1, len(DATE_TABLE) + 1))
+    ctor = (od, int(rng.integers(0, np_)), bool(rng.integers(0, 2)))
+    calls = []
+    for _ in range(int(rng.integers(1, 6))):
+        u = rng.random()
+        if u < 0.70:
+            d = None if rng.random() < 0.4 else int(rng.integers(1, len(DATE_TABLE) + 1))
+            calls.append(('field', int(rng.integers(0, np_)), d))
+        elif u < 0.85:
+            calls.append(('reset', int(rng.integers(1, len(DATE_TABLE) + 1))))
+        else:
+            calls.append(('denorm',))
+    return ctor, calls
+
+
+def _xplace(i):
+    la, lo, _ = PLACE_TABLE[i]
+    return f"({i}, {'true' if la == 0 else 'false'}, {'true' if lo == 0 else 'false'})"
+
+
+def _xopt(t):
+    return 'None' if t is None else f'(Some {t})'
+
+
+def _session_expr(ctor, calls):
+    cs = []
+    for c in calls:
+        if c[0] == 'field':
+            cs.append(f"XField {_xplace(c[1])} {_xopt(c[2])}")
+        elif c[0] == 'reset':
+            cs.append(f"XReset {c[1]}")
+        else:
+            cs.append("XDenorm")
+    return (f"xsession C15_facts {_xopt(ctor[0])} {_xplace(ctor[1])} {'true' if ctor[2] else 'false'} "
+            f"[{'; '.join(cs)}]")
+
+
+def _parse_rows(txt):
+    import json
+    return json.loads(txt.replace(';', ','))
+
+
+def _real_session(ctor, calls, cache):
+    """rows of public observations: ctor row, then one per call: None (no answer) or
+    dict(reloaded, k, date_dec, file, elems)"""
+    W = _WMM()
+    od, pi, enu = ctor
+    la, lo, h = PLACE_TABLE[pi]
+    w = W(_tok_value(od, cache) if od is not None else None, la, lo, h, 'ENU' if enu else 'NED')
+    rows = []
+
+    def obs(reloaded):
+        return {'reloaded': reloaded, 'k': _scale_count(w, cache), 'date_dec': w.date_dec, 'file': w.wmm_filename, 'elems': elements(w)}
+    rows.append(obs(True) if w.X is not None else None)
+    for c in calls:
+        prev = w.c
+        if c[0] == 'field':
+            la, lo, h = PLACE_TABLE[c[1]]
+            w.magnetic_field(la, lo, h, date=_tok_value(c[2], cache) if c[2] is not None else None)
+            rows.append(obs(w.c is not prev))
+        elif c[0] == 'reset':
+            w.reset_coefficients(_tok_value(c[1], cache))
+            rows.append(None)
+        else:
+            w.denormalize_coefficients(0.3)
+            rows.append(None)
+    return rows
+
+
+def _compare_session(ctx, label, ctor, calls, mrows, rrows, cache, stats):
+    inp = {'ctor': ctor, 'calls': calls}
+    if len(mrows) != len(rrows):
+        ctx.disagree(label, inp, mrows, len(rrows), 'row count')
+        return False
+    ok = True
+    for i, (m, r) in enumerate(zip(mrows, rrows)):
+        if (m == []) != (r is None):
+            ctx.disagree(label, inp, m, r, f'row {i}: the model {"computes" if m else "computes nothing"}, the object {"does not" if m else "does"}')
+            return False
+        if r is None:
+            continue
+        if i == 0:
+            m = [None] + m          # constructor row has no reloaded flag
+        rel, ltok, k, dtok, pidx, fr, sp = m
+        what = None
+        if i > 0 and bool(rel) != r['reloaded']:
+            what = f"row {i}: reloaded model={bool(rel)} object={r['reloaded']}"
+        elif k != r['k']:
+            what = f"row {i}: scaled {k}x in the model, {r['k']}x in the object"
+        elif _ref_state(ltok, cache)[1] != r['file']:
+            what = f"row {i}: coefficient file model={_ref_state(ltok, cache)[1]} object={r['file']}"
+        elif _ref_state(dtok, cache)[0] != r['date_dec']:
+            what = f"row {i}: date_dec model={_ref_state(dtok, cache)[0]!r} object={r['date_dec']!r}"
+        else:
+            pla = PLACE_TABLE[pidx]
+            ref = fresh_answer(_tok_value(dtok, cache), pla[0], pla[1], pla[2], 'ENU' if fr else 'NED')
+            eq = same(ref, r['elems'])
+            pure_pred = (k == 1 and sp == 0 and _ref_state(ltok, cache)[1] == _ref_state(dtok, cache)[1])
+            stats['pure' if pure_pred else 'impure'] += 1
+            if pure_pred and ref != r['elems']:
+                what = f"row {i}: model predicts the pure answer; object {r['elems'][:3]} vs fresh {ref[:3]} (not bit-equal)"
+            elif not pure_pred and eq:
+                what = f"row {i}: model predicts a corrupted answer (scaled {k}x) but the object's answer equals the fresh one"
+        if what:
+            ctx.disagree(label, inp, m, {k_: v for k_, v in r.items() if k_ != 'elems'}, what)
+            ok = False
+            break
+    return ok
+
+
+def correspondence(ctx):
+    # (a) the object model, instantiated with the regenerated facts, against real objects on generated call sequences
+    label = 'C15_object_model'
+    n = ctx.n(60, 500)
+    sessions = [((1, 0, False), [('field', 0, 1), ('field', 0, None), ('field', 0, None)]),          # the defect's own shape
+                ((2, 1, True), [('field', 3, None), ('denorm',), ('field', 2, 3), ('reset', 5), ('field', 1, None)]),
+                ((None, 0, False), [('field', 4, None), ('field', 5, 7)])]
+    while len(sessions) < n:
+        sessions.append(_gen_session(ctx.rng))
+    pre = ['From Coq Require Import List. Import ListNotations.', 'From AhrsModel Require Import C15_wmm_object.',
+           'From AhrsGen Require Import C15facts.']
+    outs = ctx.coq_eval(label, pre, [_session_expr(c, cs) for c, cs in sessions])
+    cache, stats = {}, {'pure': 0, 'impure': 0}
+    if outs is not None:
+        for (ctor, calls), txt in zip(sessions, outs):
+            r = core.call_outcome(_real_session, ctor, calls, cache)
+            if r[0] == 'raise':
+                ctx.disagree(label, {'ctor': ctor, 'calls': calls}, txt, list(r[1:]), 'the real session raises')
+                continue
+            if _compare_session(ctx, label, ctor, calls, _parse_rows(txt), r[1], cache, stats):
+                ctx.agree(label)
+        st = ctx.corr_stats.setdefault(label, {'cases': 0, 'disagree': 0})
+        st['answers_predicted_pure'] = stats['pure']
+        st['answers_predicted_corrupted'] = stats['impure']
+        ctx.say(f"[corr] {label}: {st['cases']} sessions agree, {st['disagree']} disagree; answers predicted pure {stats['pure']} "
+                f"(bit-equal to a fresh object), predicted corrupted {stats['impure']} (differ from it)")
+        if len(ctx.samples) < 6:
+            ctx.samples.append({'kind': 'correspondence', 'target': label, 'input': {'ctor': sessions[0][0], 'calls': sessions[0][1]},
+                                'model': outs[0]})
+    # (b) the regenerated formula code against the public outputs of real calls
+    W = _WMM()
+    m = ctx.n(40, 300)
+    real = {}
+    cases_d, cases_f, cases_l = [], [], []
+    for i in range(m):
+        if i < len(PLACE_TABLE):
+            la, lo, h = map(float, PLACE_TABLE[i])
+        else:
+            la, lo, h = float(ctx.rng.uniform(-90, 90)), float(ctx.rng.uniform(-180, 180)), float(ctx.rng.uniform(-1, 600))
+        d = float(np.round(ctx.rng.uniform(2015.0, 2029.9), 1))
+        ned, enu = W(frame='NED'), W(frame='ENU')
+        ned.magnetic_field(la, lo, h, date=d)
+        enu.magnetic_field(la, lo, h, date=d)
+        for w in (ned, enu):
+            c = {'x': float(w.X), 'y': float(w.Y), 'z': float(w.Z), 'glat': la, 'glon': lo}
+            real[('d',) + tuple(c.values())] = [w.H, w.F, w.I, w.D, w.GV]
+            cases_d.append(c)
+        c = {'x': float(ned.X), 'y': float(ned.Y), 'z': float(ned.Z)}
+        real[('f',) + tuple(c.values())] = [enu.X, enu.Y, enu.Z]
+        cases_f.append(c)
+        c = {'lat': la, 'lon': lo, 'h': h}
+        real[('l',) + tuple(c.values())] = [ned.sp[1], ned.sp[2], ned.sp[3], ned.cp[1], ned.cp[2], ned.cp[3]]
+        cases_l.append(c)
+    ctx.correspond('C15_derived', cases_d, lambda c: real[('d',) + tuple(c.values())], tol_ulp=64)
+    ctx.correspond('C15_frame_ENU', cases_f, lambda c: real[('f',) + tuple(c.values())], tol_ulp=0.5)
+    ctx.correspond('C15_frame_NED', cases_f, lambda c: [c['x'], c['y'], c['z']], tol_ulp=0.5)
+    ctx.correspond('C15_lon_harmonics', cases_l, lambda c: real[('l',) + tuple(c.values())], tol_ulp=16)
+
+    def scale_impl(c):
+        w = W()
+        w.degree = 2
+        w.c, w.cd = np.zeros((3, 3)), np.zeros((3, 3))
+        for k, (i, j) in SC_POS.items():
+            w.c[i, j] = c[k]
+        w.cd[0, 2] = c['d20']
+        w.denormalize_coefficients(c['phi'])
+        return [w.c[i, j] for (i, j) in SC_POS.values()] + [w.cd[0, 2]]
+    cases_s = [{k: float(ctx.rng.uniform(-3e4, 3e4)) for k in SC_IN[:-1]} | {'phi': float(ctx.rng.uniform(-1.5, 1.5))} for _ in range(ctx.n(10, 60))]
+    ctx.correspond('C15_scale', cases_s, scale_impl, tol_ulp=8)
+
+
+# =============================================================================================
+# 6. search oracles: the property statement evaluated on the implementation
+# =============================================================================================
+def _kind(spec):
+    if spec is None:
+        return 'none'
+    if spec['kind'] == 'float':
+        return 'float-on-grid' if abs(spec['v'] * 10 - round(spec['v'] * 10)) < 1e-9 else 'float-off-grid'
+    return spec['kind']
+
+
+def _place_class(la, lo):
+    return ('lat0' if la == 0 else 'pole' if abs(la) == 90 else 'polar' if abs(la) > 55 else 'mid') + \
+           ('/lon0' if lo == 0 else '/lon180' if abs(lo) == 180 else '')
+
+
+def o_sequence(inp):
+    """one object asked a sequence of questions: every answer equals the answer of a fresh object asked only that question"""
+    W = _WMM()
+    c = inp['ctor']
+    w = W(dval(c['date']), c['lat'], c['lon'], c['h'], c['frame'])
+    cur = c['date']                               # the object's date, as the caller knows it
+    after = 'ctor-computed' if w.X is not None else 'reset'
+    for i, call in enumerate(inp['calls']):
+        op = call['op']
+        if op == 'reset':
+            w.reset_coefficients(dval(call['date']))
+            cur, after = call['date'], 'reset'
+            continue
+        if op == 'denorm':
+            w.denormalize_coefficients(call.get('phi', 0.3))
+            after = 'call'
+            continue
+        d = call['date']
+        w.magnetic_field(call['lat'], call['lon'], call['h'], date=dval(d))
+        if d is not None:
+            cur = d
+        got = elements(w)
+        ref = fresh_answer(dval(cur), call['lat'], call['lon'], call['h'], c['frame'])
+        if not same(got, ref):
+            tag = f"magnetic_field/explicit-date-after-{after}" if d is not None else \
+                  ('magnetic_field/date-none-after-call' if after != 'reset' else 'magnetic_field/date-none-after-reset')
+            return {'tag': tag, 'observed': got, 'expected': ref, 'note': f'call #{i} of the sequence; elements X,Y,Z,H,F,I,D,GV'}
+        after = 'call'
+    return None
+
+
+def o_ctor(inp):
+    """constructor = method on a fresh object, for the same date, place and frame; the constructor always answers"""
+    W = _WMM()
+    d = inp['date']
+    w = W(dval(d), inp['lat'], inp['lon'], inp['h'], inp['frame'])
+    got = elements(w)
+    if got is None:
+        zero = inp['lat'] == 0 or inp['lon'] == 0
+        return {'tag': 'constructor/skips-zero-place' if zero else 'constructor/no-answer', 'observed': None,
+                'expected': fresh_answer(dval(d), inp['lat'], inp['lon'], inp['h'], inp['frame'])}
+    ref = fresh_answer(dval(d), inp['lat'], inp['lon'], inp['h'], inp['frame'])
+    if not same(got, ref):
+        return {'tag': f'constructor/{_kind(d)}' if _kind(d) != 'float-off-grid' else T_DATE, 'observed': got, 'expected': ref,
+                'note': f'constructor answered for date_dec={w.date_dec!r} (file {w.wmm_filename})'}
+    return None
+
+
+def _query(inp, frame=None, lat=None, lon=None):
+    """one answer through the entry point named in inp"""
+    W = _WMM()
+    la = inp['lat'] if lat is None else lat
+    lo = inp['lon'] if lon is None else lon
+    fr = frame or inp.get('frame', 'NED')
+    if inp.get('entry') == 'constructor':
+        return elements(W(dval(inp['date']), la, lo, inp['h'], fr))
+    w = W(frame=fr)
+    w.magnetic_field(la, lo, inp['h'], date=dval(inp['date']))
+    return elements(w)
+
+
+def o_consistency(inp):
+    """H, F, I, D follow from X, Y, Z; GV from D; everything finite (poles included)"""
+    e = _query(inp)
+    ent, fr = inp.get('entry', 'magnetic_field'), inp.get('frame', 'NED')
+    if e is None:
+        return None             # the constructor's silence is o_ctor's business
+    X, Y, Z, H, F, I, D, GV = e
+    reg = _place_class(inp['lat'], inp['lon']).split('/')[0]
+    if not all(math.isfinite(v) for v in e):
+        return {'tag': f'{ent}/{fr}/non-finite-{reg}', 'observed': e}
+    sc = max(1.0, abs(F))
+    checks = [('H', H, math.hypot(X, Y), 1e-9 * sc), ('F', F, math.sqrt(X * X + Y * Y + Z * Z), 1e-9 * sc),
+              ('I', I, math.degrees(math.atan2(Z, H)), 1e-9), ('D', D, math.degrees(math.atan2(Y, X)), 1e-9),
+              ('GV', GV, D - inp['lon'] if inp['lat'] > 55 else D + inp['lon'] if inp['lat'] < -55 else D, 1e-9)]
+    for name, got, exp, tol in checks:
+        if abs(got - exp) > tol:
+            return {'tag': f'{ent}/{fr}/{name}-inconsistent', 'observed': got, 'expected': exp}
+    return None
+
+
+def o_frames(inp):
+    """ENU = NED with north/east swapped and down negated; H and F do not depend on the frame"""
+    a, b = _query(inp, frame='NED'), _query(inp, frame='ENU')
+    ent = inp.get('entry', 'magnetic_field')
+    if a is None or b is None:
+        return None
+    exp = [a[1], a[0], -a[2], a[3], a[4]]
+    if max(abs(x - y) for x, y in zip(b[:5], exp)) > TOL_NT:
+        return {'tag': f'{ent}/ENU-not-swapped-NED', 'observed': b[:5], 'expected': exp}
+    return None
+
+
+def o_lon180(inp):
+    """+180 and -180 are the same meridian: the same elements (angles compared modulo 360)"""
+    a, b = _query(inp, lon=180.0), _query(inp, lon=-180.0)
+    ent = inp.get('entry', 'magnetic_field')
+    if a is None or b is None:
+        return None
+    d = elem_diff(a, b)
+    if d[0] > 1e-6 or d[1] > 1e-8:
+        return {'tag': f'{ent}/lon-pm180-differ', 'observed': a, 'expected': b}
+    return None
+
+
+def o_zero(inp):
+    """the equator and the prime meridian are computed like anywhere else: the answer there is the limit of its neighbours"""
+    ent = inp.get('entry', 'magnetic_field')
+    which = inp['which']
+    eps = 1e-9
+    at = _query(inp, **{which: 0.0})
+    if at is None:
+        return None if ent == 'constructor' else {'tag': f'{ent}/no-answer-{which}0', 'observed': None}
+    for s in (+1, -1):
+        nb = _query(inp, **{which: s * eps})
+        d = elem_diff(at, nb)
+        if d[0] > 1e-3 or d[1] > 1e-6:
+            return {'tag': f'{ent}/{which}0-special-cased', 'observed': at, 'expected': nb}
+    return None
+
+
+class _FakeMeta(type(datetime.date)):
+    def __instancecheck__(cls, inst):
+        return isinstance(inst, datetime.date)
+
+
+def o_default_date(inp):
+    """an omitted date means 'today' in the constructor and in the method alike: with the clock moved (the module's view of
+    datetime.date.today patched to another day) both must follow it"""
+    import ahrs.utils.wmm as M
+    W = M.WMM
+    y, mo, da = inp['today']
+
+    class FakeDate(datetime.date, metaclass=_FakeMeta):
+        @classmethod
+        def today(cls):
+            return datetime.date(y, mo, da)
+    saved = M.datetime
+    M.datetime = types.SimpleNamespace(date=FakeDate)
+    try:
+        a = elements(W(None, inp['lat'], inp['lon'], inp['h']))         # constructor: today at call time
+        w = W(None, inp['lat'], inp['lon'], inp['h'])
+        w.magnetic_field(inp['lat'], inp['lon'], inp['h'])              # method, date omitted
+        b = elements(w)
+        w.magnetic_field(inp['lat'], inp['lon'], inp['h'], date=datetime.date(y, mo, da))
+        c = elements(w)
+    finally:
+        M.datetime = saved
+    if not same(a, c):
+        return {'tag': 'constructor/today-not-followed', 'observed': a, 'expected': c}
+    if not same(b, c):
+        frozen = isinstance(inspect.signature(W.magnetic_field).parameters['date'].default, datetime.date)
+        return {'tag': T_DEFAULT if frozen else 'magnetic_field/default-date', 'observed': b, 'expected': c,
+                'note': f"default argument = {inspect.signature(W.magnetic_field).parameters['date'].default!r}"}
+    return None
+
+
+ORACLES = {'sequence': o_sequence, 'ctor': o_ctor, 'consistency': o_consistency, 'frames': o_frames, 'lon180': o_lon180,
+           'zero': o_zero, 'default_date': o_default_date}
+
+
+def _call(name, inp):
+    r = core.call_outcome(ORACLES[name], inp)
+    if r[0] == 'raise':
+        ent = inp.get('entry', 'constructor' if name == 'ctor' else 'magnetic_field')
+        return {'tag': f"{ent}/raises-{r[1]}", 'observed': list(r[1:])}
+    return r[1]
+
+
+def _rand_date(rng, allow_none=False):
+    u = rng.random()
+    if allow_none and u < 0.3:
+        return None
+    if u < 0.5:
+        return {'kind': 'float', 'v': float(np.round(rng.uniform(2015.0, 2029.9), 1))}
+    if u < 0.75:
+        return {'kind': 'float', 'v': float(np.round(rng.uniform(2015.0, 2029.99), int(rng.integers(2, 5))))}
+    if u < 0.85:
+        return {'kind': 'int', 'v': int(rng.integers(2015, 2030))}
+    return {'kind': 'date', 'v': [int(rng.integers(2015, 2030)), int(rng.integers(1, 13)), int(rng.integers(1, 29))]}
+
+
+EDGE_DATES = [{'kind': 'float', 'v': v} for v in (2015.0, 2019.9, 2019.999, 2020.0, 2024.9, 2024.999, 2025.0, 2017.25, 2029.9)] + \
+             [{'kind': 'date', 'v': [2019, 12, 31]}, {'kind': 'date', 'v': [2020, 1, 1]}, {'kind': 'date', 'v': [2024, 12, 31]}, {'kind': 'int', 'v': 2020}]
+
+
+def _rand_place(rng):
+    u = rng.random()
+    if u < 0.35:
+        la, lo, h = PLACE_TABLE[int(rng.integers(0, len(PLACE_TABLE)))]
+        return float(la), float(lo), float(h)
+    la = float(rng.choice([0.0, 90.0, -90.0, 55.0, -55.0])) if rng.random() < 0.2 else float(rng.uniform(-90, 90))
+    lo = float(rng.choice([0.0, 180.0, -180.0])) if rng.random() < 0.2 else float(rng.uniform(-180, 180))
+    return la, lo, float(rng.uniform(-1, 600))
+
+
+def search(ctx, scale):
+    rng = ctx.rng
+    # call sequences on one object
+    for i in range(40 * scale):
+        la, lo, h = _rand_place(rng)
+        ctor = {'date': _rand_date(rng, True) if i % 3 else EDGE_DATES[i % len(EDGE_DATES)], 'lat': la, 'lon': lo, 'h': h,
+                'frame': 'ENU' if rng.random() < 0.4 else 'NED'}
+        calls = []
+        for _ in range(int(rng.integers(1, 7))):
+            u = rng.random()
+            if u < 0.75:
+                la, lo, h = _rand_place(rng)
+                calls.append({'op': 'field', 'lat': la, 'lon': lo, 'h': h, 'date': _rand_date(rng, True)})
+            elif u < 0.9:
+                calls.append({'op': 'reset', 'date': _rand_date(rng)})
+            else:
+                calls.append({'op': 'denorm', 'phi': float(rng.uniform(-1.5, 1.5))})
+        inp = {'ctor': ctor, 'calls': calls}
+        key = (ctor['frame'], _kind(ctor['date']), tuple((c['op'], _kind(c.get('date')) if c['op'] != 'denorm' else '') for c in calls))
+        ctx.check('sequence', inp, _call('sequence', inp), nontrivial_key=key)
+    # single questions through both entry points
+    for i in range(60 * scale):
+        la, lo, h = _rand_place(rng)
+        d = EDGE_DATES[i % len(EDGE_DATES)] if i % 4 == 0 else _rand_date(rng, allow_none=(i % 7 == 3))
+        fr = 'ENU' if i % 3 == 0 else 'NED'
+        inp = {'date': d, 'lat': la, 'lon': lo, 'h': h, 'frame': fr}
+        ctx.check('ctor', inp, _call('ctor', inp), nontrivial_key=(_kind(d), _place_class(la, lo), fr))
+        d2 = d if d is not None else {'kind': 'float', 'v': 2026.5}
+        for ent in ('magnetic_field', 'constructor'):
+            q = {'entry': ent, 'date': d2, 'lat': la, 'lon': lo, 'h': h, 'frame': fr}
+            ctx.check('consistency', q, _call('consistency', q), nontrivial_key=(ent, fr, _place_class(la, lo)))
+            if i % 2 == 0:
+                ctx.check('frames', q, _call('frames', q), nontrivial_key=(ent, _place_class(la, lo)))
+            if i % 3 == 0:
+                ctx.check('lon180', q, _call('lon180', q), nontrivial_key=(ent, round(la)))
+            if i % 3 == 1:
+                for which in ('lat', 'lon'):
+                    qq = dict(q, which=which)
+                    ctx.check('zero', qq, _call('zero', qq), nontrivial_key=(ent, which, round(la), round(lo)))
+    for t in ([2021, 6, 1], [2027, 2, 3]):
+        inp = {'today': t, 'lat': 48.13723, 'lon': 11.575508, 'h': 0.521}
+        ctx.check('default_date', inp, _call('default_date', inp), nontrivial_key=tuple(t))
+    ctx.samples.append({'kind': 'search', 'oracle': 'sequence',
+                        'input': {'ctor': {'date': {'kind': 'float', 'v': 2017.5}, 'lat': 10.0, 'lon': -20.0, 'h': 10.5, 'frame': 'NED'},
+                                  'calls': [{'op': 'field', 'lat': 10.0, 'lon': -20.0, 'h': 10.5, 'date': None}]}})
